@@ -11,5 +11,5 @@ python3 tools/extract.py --repo "${VERIF_REPO:-/repo}" --out lean/ActixNet/Gener
 cp -f "${VERIF_REPO:-/repo}/Cargo.lock" harness/Cargo.lock
 (cd harness && RUSTFLAGS="--cfg actix_net_verif" CARGO_TARGET_DIR="$PWD/../.build/target" cargo build --offline --bins) || echo "setup: cargo build reported failures (left to the checks)"
 # the second build (no debug assertions, no overflow checks) used by the `ndebug` runs of the quick tier
-(cd harness && RUSTFLAGS="--cfg actix_net_verif -C debug-assertions=off -C overflow-checks=off" CARGO_TARGET_DIR="$PWD/../.build/target-ndebug" cargo build --offline --bin bs --bin codec --bin rt --bin srv) || echo "setup: cargo build (ndebug) reported failures (left to the checks)"
+(cd harness && RUSTFLAGS="--cfg actix_net_verif -C debug-assertions=off -C overflow-checks=off" CARGO_TARGET_DIR="$PWD/../.build/target-ndebug" cargo build --offline --bin bs --bin codec --bin rt --bin srv --bin worker) || echo "setup: cargo build (ndebug) reported failures (left to the checks)"
 echo setup-ok
